@@ -1138,6 +1138,13 @@ func checkSCase(c SCase, o *vt.Obs) error {
 	if err := src.prepare(); err != nil {
 		return err
 	}
+	if b.Excluded > 0 { // responses to requests whose transaction is no longer traceable: listed known finding
+		o.Excluded()
+		o.Label("excluded/" + ck.KnownOracleOrigTx)
+	}
+	for _, l := range b.FlowLabels() {
+		o.Label("history/" + l)
+	}
 	shared := false
 	for _, v := range src.visits {
 		if v > 1 {
